@@ -86,7 +86,11 @@ func RunHistory(h History, mon Monitor) (*RunStats, *Trace, *pbt.Violation, erro
 	w := NewWorld(c)
 	// bootstrap: two op-free honest blocks; block 2 registers the EVM addresses and stores checkpoint 0.
 	for i := 0; i < 2; i++ {
-		br := c.NextBlock(BlockInput{Gap: 1e9})
+		var bv []VoteSpec
+		if i < len(h.Genesis.BootVotes) {
+			bv = h.Genesis.BootVotes[i]
+		}
+		br := c.NextBlock(BlockInput{Gap: 1e9, Votes: bv})
 		if br.Halt != nil {
 			return rs, tr, nil, fmt.Errorf("bootstrap block %d failed (harness is not a valid consensus engine?): %v\n%s", br.Height, br.Halt, br.Halt.Stack)
 		}
